@@ -22,7 +22,7 @@ def model_run(progs, tag="mfile", timeout=600, max_steps=400, workers=8):
 
 
 def impl_run(binary, progs, gc="default", modules=None, timeout=30):
-    cases = [{"id": pid, "main": yprog.program_src(toks), "gc": gc, "modules": modules or {}} for pid, toks in progs]
+    cases = [{"id": pid, "main": yprog.program_src(toks), "gc": gc, "modules": modules or {}, "natives": True} for pid, toks in progs]
     return {c["id"]: r for c, r in zip(cases, vlib.Pool(binary, "run", timeout=timeout).map(cases))}
 
 
